@@ -352,6 +352,7 @@ def run (ctx):
   for f in (fin, disc, cl, cn, dc):
     for nm, node in defs.undefined_names(repo, f):
       ctx.bad('R-DEF', f, "undefined name `%s`" % nm, "NameError on this path", (f.module, node), 'D6')
+  connection_str_total(ctx, repo, 'D1')
 
 def disconnect_states (ctx, repo, mod, con, disc, dn, clause):
   g = q.cfg_of(disc)
@@ -379,3 +380,42 @@ def disconnect_states (ctx, repo, mod, con, disc, dn, clause):
            "`self.disconnection_raised = True` is followed by a path that raises no ConnectionDown (facts at the raise: %s): the connection is marked as announced-down without anybody having been told - "
            "if listeners did hear ConnectionUp (e.g. a ConnectionUp handler that disconnects: earlier listeners have been called already) they never hear ConnectionDown" % q.fact_strs(g, dn[0])[-2:], (mod, f_.ast), clause)
 
+
+
+def connection_str_total (ctx, repo, clause):
+  """`str(connection)` is part of every log call on a connection - the warnings in read(), the error paths of send(), the task's own
+  except clause, disconnect(): it must be total.  Its calls are conversions only (anything that asks the socket is inside a try), and
+  the DPID formatter it relies on is evaluated on sample DPIDs, among them ones with the upper 16 bits set."""
+  con = repo.cls('openflow.of_01', 'Connection'); f = con.methods.get('__str__')
+  if f is None: return
+  ctx.analysed(f); g = q.cfg_of(f)
+  SAFE = ('str', 'dpidToStr', 'dpid_to_str', 'id', 'repr', 'int', 'hex', 'format', 'join')
+  for n in g.nodes:
+    for c in q.node_calls(n):
+      if call_name(c) in SAFE: continue
+      hs = g.handlers_for(n)
+      contained = any(h.ast.type is None or any(k in norm(h.ast.type) for k in ('Exception', 'BaseException')) for h in hs)
+      ctx.ob('R-CONTAIN', f, "printing a connection cannot fail (`%s`)" % norm(c)[:40], contained, "inside a catch-all" if contained else
+             "`%s` can raise (a socket that was reset has no peer any more), and str(connection) is evaluated by every con.msg/err/info - also on the error paths of send() before disconnect(), and inside the "
+             "OpenFlow task's own except clause: the error handling itself fails, the connection is neither marked disconnected nor announced down" % norm(c)[:50], (f.module, c), clause)
+  um = repo.mod('lib.util'); d2s = um.funcs.get('dpid_to_str')
+  if d2s is None: raise AnalysisError("lib.util.dpid_to_str vanished")
+  ctx.analysed(d2s); gd = q.cfg_of(d2s)
+  bad = []; und = 0
+  for d in (1, 0x0000ffffffffffff, 0x00a1000000000001, 0xffff000000000005, 0x1234aabbccddeeff):
+    lo = '-'.join('%02x' % ((d >> s_) & 0xff) for s_ in (40, 32, 24, 16, 8, 0)); hi = d >> 48
+    want = lo + ('|%d' % hi if hi else '')
+    del q.RAISED[:]
+    outs = set()
+    for p_, e_ in q.paths_under(repo, um, gd, q.Env({d2s.params[0]: d, d2s.params[1] if len(d2s.params) > 1 else 'alwaysLong': False}), gd.entry, [n_ for n_ in gd.nodes if n_.kind == 'return'], None, limit=30):
+      try: outs.add(q.eval_env2(repo, um, p_[-1].ast.value, e_, None))
+      except Exception: outs.add('?')
+    if q.RAISED: bad.append((d, "raises %s (`%s`)" % (q.RAISED[0][1], q.RAISED[0][0]))); continue
+    if not outs or '?' in outs: und += 1; continue
+    if outs != {want}: bad.append((d, "gives %s, the canonical form is %r" % (sorted(outs), want)))
+  if und and not bad:
+    ctx.undecided('R-AGREE', d2s, "the DPID formatter is total and canonical on sample DPIDs", "%d of 5 samples not evaluable" % und, d2s, clause)
+  else:
+    ctx.ob('R-AGREE', d2s, "the DPID formatter is total and canonical on sample DPIDs", not bad, "5 samples (upper 16 bits zero and non-zero)" if not bad else
+           "dpid_to_str(0x%016x) %s: every log line of a connection to such a switch fails - ConnectionUp is never raised although the connection is registered, and the controller's read loop dies on the first warning"
+           % bad[0], d2s, clause)
